@@ -469,6 +469,11 @@ func (vc *VC) enterLoop(fr *Frame, li *loopInfo, cur *State) *State {
 		}
 		vc.assume(implies(st.reach, g))
 	}
+	// vacuity guard: the invariants must leave the loop body reachable
+	if len(invs) > 0 && fr.depth == 0 {
+		o := vc.oblige(st, "cover", fmt.Sprintf("loop%d-reachable", li.ordinal), "false", token.Position{}, "the loop invariants are satisfiable at the loop head")
+		o.ExpectSat = true
+	}
 	return st
 }
 
